@@ -128,6 +128,8 @@ def run_property(pid, spec, tier, seed, t0):
     if harness_ok:
         for c in spec.get("corr", []):
             kind = c["kind"]
+            if "runner" in c:
+                C.RUNNERS[kind] = c["runner"]
             n = c["quick"] if quick else c["thorough"]
             env = c.get("env")
             r = C.run_corpus(pid, kind, compare_model=model_ok)
